@@ -37,7 +37,7 @@ REQUIRED = {
 
 
 def budget(tier):
-    return 160 if tier == "quick" else 5000
+    return 160 if tier == "quick" else 75000
 
 
 def gen_case(rng, tier, idx):
